@@ -41,6 +41,9 @@ type rpStep struct {
 	Pretty   bool     `json:"pretty_printed,omitempty"`
 	NoDest   bool     `json:"no_destination,omitempty"` // unsigned Response without a Destination attribute (legal: Destination is optional)
 	Methods  []string `json:"conf_methods,omitempty"`   // per confirmation: "" = bearer, else the method URN
+	// answer: unused namespace declarations called InResponseTo are added in flight to the Response and to every confirmation's data,
+	// reading this flow's request ID ("match") or somebody else's ("other"): they say nothing about what the message answers
+	NSIRT string `json:"unused_ns_named_in_response_to,omitempty"`
 	// deliver
 	Resp  int    `json:"resp,omitempty"`
 	Entry string `json:"entry,omitempty"` // xml | post | artifact
@@ -85,6 +88,9 @@ func genReplay(g *Rng, tier string) *Plan {
 				st.NoDest = true
 			}
 			st.Pretty = g.Bool(0.25)
+			if g.Bool(0.15) {
+				st.NSIRT = Pick(g, "match", "match", "other")
+			}
 			steps = append(steps, st)
 			nresps++
 		case c == 2:
@@ -291,6 +297,11 @@ func execReplay(t *testing.T, p *Plan) *Result {
 			}
 			if st.Pretty {
 				spec.Pretty, a.Pretty = true, true
+			}
+			if st.NSIRT != "" {
+				v := pick(st.NSIRT)
+				spec.NSDecls = []NSDecl{{On: "Response", Prefix: "InResponseTo", Value: v}, {On: "SubjectConfirmationData", Prefix: "InResponseTo", Value: v}, {On: "SubjectConfirmation", Prefix: "InResponseTo", Value: v}}
+				res.probe("unused-namespace-declaration-named-in-response-to:" + st.NSIRT)
 			}
 			spec.Assertions = []AsrtSpec{a}
 			r.spec = spec
